@@ -839,7 +839,23 @@ def inline_function(idx: PyIndex, fi: FuncInfo, depth: int = 2, keep=None, types
             break
     ast.fix_missing_locations(fn)
     # apply the canonical forms again (helper bodies were already canonical, but idioms may now span the seam)
-    from .normalise import Canon, _Subst
+    from .normalise import Canon, _Subst, _pure_cell
+
+    class _CallableCells(ast.NodeTransformer):
+        """NAME(args) where NAME is a module-level name bound once to a pure accessor (attrgetter('x'), itemgetter(0), methodcaller('m'), a lambda): the accessor stands
+        in the call, and the canonical forms below apply it."""
+        def visit_Call(self, node):
+            self.generic_visit(node)
+            if isinstance(node.func, ast.Name):
+                for mn in [fi.module] + sorted(_touched_modules):
+                    sym = idx.resolve(mn, node.func.id) if mn in idx.modules else None
+                    if sym is not None and sym.kind == 'assign' and isinstance(sym.node, (ast.Call, ast.Lambda)) and _pure_cell(sym.node) \
+                            and not any(isinstance(x, ast.Name) and isinstance(x.ctx, ast.Store) and x.id == node.func.id for x in ast.walk(fn)):
+                        node.func = copy.deepcopy(sym.node)
+                        break
+            return node
+    fn = _CallableCells().visit(fn)
+    ast.fix_missing_locations(fn)
     fn = _Subst({}).visit(fn)           # getattr(x, 'const') -> x.const, applied lambdas
     if fn.body and any(isinstance(x, (ast.If, ast.IfExp)) for x in ast.walk(fn)):
         folded = _Fold(idx, exact).visit(fn)
